@@ -282,11 +282,23 @@ func runC18(c *Ctx) {
 	if fi := c.fn("pool-handout", "sync2.(*Pool).Put"); fi != nil {
 		if ps := c.paths("pool-handout", fi); ps != nil {
 			recv := paramOf(fi, 0)
-			ok := len(ps) == 1
-			if ok {
-				p := ps[0]
+			ok := len(ps) >= 1
+			for _, p := range ps {
 				puts := callsNamed(p, "sync.(*Pool).Put")
-				ok = len(p.Events) == 1 && len(puts) == 1 && isFieldAddr(puts[0].Args[0], poolField, recv) && isParam(stripIface(puts[0].Args[1]), 1)
+				if len(p.Events) == 1 && len(puts) == 1 && isFieldAddr(puts[0].Args[0], poolField, recv) && isParam(stripIface(puts[0].Args[1]), 1) {
+					continue
+				}
+				// sync.Pool.Put drops a nil interface value before doing anything else: returning at once when x is
+				// known to be the nil interface is the same thing
+				nilX := false
+				for _, cd := range p.Conds {
+					if r := cd.Rel(); r.Op == "==" && (isParam(stripIface(r.A), 1) && r.B.IsConst("nil") || isParam(stripIface(r.B), 1) && r.A.IsConst("nil")) {
+						nilX = true
+					}
+				}
+				if !(nilX && len(p.Events) == 0 && p.End == EndReturn) {
+					ok = false
+				}
 			}
 			R.Decide(ok, "pool-handout", fi.Name, "put", c.pos(fi), "one pool.Put(x)", "Put is not exactly one pool.Put(x) on the receiver's pool")
 		}
